@@ -155,3 +155,22 @@ Qed.
 (* the graph walk of backward follows `_children`; the constructor keeps children only for results that require grad *)
 Lemma backward_confined_to_tracked_graph_pf : untracked_results_keep_no_children = true.
 Proof. vm_compute. reflexivity. Qed.
+
+(* a tensor that does not require grad WHEN BACKWARD RUNS is not written: every closure guards every accumulation by the
+   live flag of its own target, every closure has such a row, and backward zeroes a child only under its live flag *)
+Lemma frozen_tensors_not_written_pf :
+  (forall q b, In (q, b) closure_guards_live -> b = true) /\
+  (forall fd, In fd program -> named closure_names fd = true -> In (f_name fd, true) closure_guards_live) /\
+  walk_zeroes_only_requiring = true.
+Proof.
+  split; [|split].
+  - assert (H : forallb (fun qb => snd qb) closure_guards_live = true) by (vm_compute; reflexivity).
+    rewrite forallb_forall in H. intros q b Hin. exact (H (q, b) Hin).
+  - assert (H : forallb (fun fd => if named closure_names fd
+                                   then existsb (fun qb => String.eqb (fst qb) (f_name fd) && snd qb) closure_guards_live else true) program = true)
+      by (vm_compute; reflexivity).
+    rewrite forallb_forall in H. intros fd Hfd Hn. specialize (H fd Hfd). rewrite Hn in H.
+    apply existsb_exists in H. destruct H as ((q, b) & Hin & Hq). cbn in Hq. apply andb_true_iff in Hq. destruct Hq as (Hq & Hb).
+    apply String.eqb_eq in Hq. subst q b. exact Hin.
+  - vm_compute. reflexivity.
+Qed.
